@@ -129,28 +129,55 @@ def ir_subst(e: Any, binding: Dict[str, IR]) -> Any:
 
 
 def c_fn_value_ir(body: Dict[str, Any], src_of: Optional[Callable[[Dict[str, Any]], str]] = None) -> Optional[IR]:
-    """the value of a side-effect-free C function as ONE expression over its parameters: a body made of `return E;` and
-    `if (C) return A; [else ...]` statements reads as nested conditionals (None when the body has any other statement)."""
-    def of(stmts: List[Dict[str, Any]]) -> Optional[IR]:
-        if not stmts:
+    """the value of a side-effect-free C function as ONE expression over its parameters. the body may be made of `return E;`,
+    `if (C) ... [else ...]`, declarations of locals, plain assignments to locals and `(void)x;`; locals are substituted forward
+    on every path, so `if (c) v = A; else v = B; return f(v);` reads `c ? f(A) : f(B)`. None when the body has any other
+    statement (a loop, a call statement, a store through a pointer / member)."""
+    def unwrap(n: Dict[str, Any]) -> Dict[str, Any]:
+        while n.get('kind') in ('ParenExpr', 'ImplicitCastExpr') and n.get('inner'):
+            n = n['inner'][0]
+        return n
+
+    def of(stmts: List[Dict[str, Any]], env: Dict[str, IR], fuel: List[int]) -> Optional[IR]:
+        fuel[0] -= 1
+        if not stmts or fuel[0] < 0:
             return None
         st = stmts[0]
         k = st.get('kind')
         if k == 'CompoundStmt':
-            return of([x for x in st.get('inner', []) if isinstance(x, dict)] + stmts[1:])
+            return of([x for x in st.get('inner', []) if isinstance(x, dict)] + stmts[1:], env, fuel)
         if k == 'ReturnStmt' and st.get('inner'):
-            return c_ir(st['inner'][0], src_of)
+            return ir_subst(c_ir(st['inner'][0], src_of), env)
         if k == 'IfStmt':
             inner = st['inner']
-            then = of([inner[1]])
+            then = of([inner[1]] + stmts[1:], dict(env), fuel)
             if then is None:
                 return None
-            other = of([inner[2]] + stmts[1:]) if len(inner) > 2 else of(stmts[1:])
+            other = of(([inner[2]] if len(inner) > 2 else []) + stmts[1:], dict(env), fuel)
             if other is None:
                 return None
-            return ('cond', c_ir(inner[0], src_of), then, other)
+            return ('cond', ir_subst(c_ir(inner[0], src_of), env), then, other)
+        if k == 'DeclStmt':
+            for d in st.get('inner', []):
+                if d.get('kind') != 'VarDecl':
+                    return None
+                init = [c for c in d.get('inner', []) if isinstance(c, dict) and c.get('kind')]
+                if init:
+                    env = dict(env)
+                    env[d['name']] = ir_subst(c_ir(init[-1], src_of), env)
+            return of(stmts[1:], env, fuel)
+        if k == 'CStyleCastExpr' and st.get('type', {}).get('qualType') == 'void':
+            return of(stmts[1:], env, fuel)
+        if k == 'NullStmt':
+            return of(stmts[1:], env, fuel)
+        if k == 'BinaryOperator' and st.get('opcode') == '=':
+            l0 = unwrap(st['inner'][0])
+            if l0.get('kind') == 'DeclRefExpr' and l0.get('referencedDecl', {}).get('kind') == 'VarDecl':
+                env = dict(env)
+                env[l0['referencedDecl']['name']] = ir_subst(c_ir(st['inner'][1], src_of), env)
+                return of(stmts[1:], env, fuel)
         return None
-    return of([body])
+    return of([body], {}, [400])
 
 
 def eval_ir(e: IR, env: Dict[str, int]) -> int:
@@ -199,6 +226,24 @@ def eval_ir(e: IR, env: Dict[str, int]) -> int:
     if t == 'call' and e[1][0] == 'attr' and e[1][2] == 'bit_length' and not e[2]:
         return eval_ir(e[1][1], env).bit_length()
     raise Unrecognised(f'eval_ir: {t}')
+
+
+def expand_pure_calls(ir: IR, value_of: Callable[[str], Optional[Tuple[List[str], IR]]], depth: int = 0) -> IR:
+    """ir with every call of a side-effect-free unit-local function (value_of(name) -> (parameters, value expression) or None)
+    replaced by that function's value on the actual arguments: `mem_width_log2(w)` reads as the conditional it computes."""
+    if depth > 4:
+        return ir
+    if isinstance(ir, tuple):
+        if ir and ir[0] == 'call' and ir[1][0] == 'sym':
+            got = value_of(ir[1][1])
+            args = [expand_pure_calls(a, value_of, depth) for a in ir[2]]
+            if got is not None and len(got[0]) == len(args):
+                return expand_pure_calls(ir_subst(got[1], dict(zip(got[0], args))), value_of, depth + 1)
+            return ('call', ir[1], args)
+        return tuple(expand_pure_calls(x, value_of, depth) for x in ir)
+    if isinstance(ir, list):
+        return [expand_pure_calls(x, value_of, depth) for x in ir]
+    return ir
 
 
 # ---------------------------------------------------------------- propositional reading of conditions
